@@ -49,6 +49,7 @@ fn spec(i: usize) -> RefSpec {
         1 => m(Some(LevelFilter::Error), &[("m", LevelFilter::Warn)]),    // B = error,m=warn
         2 => m(None, &[("n", LevelFilter::Info)]),                        // C = off,n=info
         3 => m(Some(LevelFilter::Debug), &[("m", LevelFilter::Off)]),     // D = debug,m=off
+        5 => m(Some(LevelFilter::Error), &[]),                            // E = error (below the additional writer's ceiling)
         _ => m(Some(LevelFilter::Info), &[]),                             // initial = info
     }
 }
@@ -61,8 +62,13 @@ enum Op {
     PushC,
     PushPopC,
     SetD,
+    /// the specfile watcher's path: LogSpecSubscriber::set_new_spec on its clone of the
+    /// WritersHandle (through the guarded hook), with E = error
+    WatcherE,
+    /// a logging thread's view: reads log::max_level() once, at any moment
+    Probe,
 }
-const OPS: [Op; 5] = [Op::SetA, Op::ParseB, Op::PushC, Op::PushPopC, Op::SetD];
+const OPS: [Op; 6] = [Op::SetA, Op::ParseB, Op::PushC, Op::PushPopC, Op::SetD, Op::WatcherE];
 
 fn harnesses(tier: &str) -> Vec<Vec<Op>> {
     let mut v = Vec::new();
@@ -95,6 +101,13 @@ fn harnesses(tier: &str) -> Vec<Vec<Op>> {
     for t in triples {
         v.push(t.to_vec());
     }
+    // a logging thread looking at the gate while one or two changes are under way
+    for a in 0..OPS.len() {
+        v.push(vec![OPS[a], Op::Probe]);
+    }
+    for pair in [[Op::SetA, Op::WatcherE], [Op::WatcherE, Op::SetD], [Op::ParseB, Op::WatcherE], [Op::PushPopC, Op::WatcherE]] {
+        v.push(vec![pair[0], pair[1], Op::Probe]);
+    }
     v
 }
 
@@ -111,11 +124,15 @@ const TARGETS: [&str; 3] = ["m", "n", "x"];
 struct Obs {
     grid: Vec<bool>,
     gate: LevelFilter,
+    /// what the probing thread saw
+    probed: Option<LevelFilter>,
 }
 
 fn sched_cfg() -> SchedCfg {
     SchedCfg {
-        only_points: Some(vec!["start", "set_max_level"]),
+        only_points: Some(vec!["start", "set_max_level", "writer_max_level"]),
+        // a lock the hooks do not know (a change that adds or inlines one) must not stall the run
+        detect_real_blocking: true,
         ..SchedCfg::default()
     }
 }
@@ -130,11 +147,15 @@ fn body(ops: Vec<Op>) -> Arc<dyn Fn(&Arc<Sched>) -> Obs + Send + Sync> {
             .build()
             .expect("build");
         let mut hs = Vec::new();
+        let probed: Arc<std::sync::Mutex<Option<LevelFilter>>> = Arc::new(std::sync::Mutex::new(None));
         for (i, op) in ops.iter().enumerate() {
             let mut h = handle.clone();
             let op = *op;
+            let probed = Arc::clone(&probed);
             hs.push(s.spawn(&format!("t{i}"), move || {
                 match op {
+                    Op::WatcherE => h.verif_subscriber_set_new_spec(spec(5).build()).expect("subscriber"),
+                    Op::Probe => *probed.lock().unwrap() = Some(log::max_level()),
                     Op::SetA => h.set_new_spec(spec(0).build()),
                     Op::ParseB => h.parse_new_spec(&spec(1).text()).expect("well-formed"),
                     Op::PushC => h.push_temp_spec(spec(2).build()),
@@ -160,7 +181,8 @@ fn body(ops: Vec<Op>) -> Arc<dyn Fn(&Arc<Sched>) -> Obs + Send + Sync> {
         let gate = log::max_level();
         std::mem::forget(handle);
         drop(logger);
-        Obs { grid, gate }
+        let probed = *probed.lock().unwrap();
+        Obs { grid, gate, probed }
     })
 }
 
@@ -177,6 +199,8 @@ fn candidates(ops: &[Op]) -> Vec<usize> {
                 c.push(INITIAL);
             }
             Op::SetD => c.push(3),
+            Op::WatcherE => c.push(5),
+            Op::Probe => {}
         }
     }
     if ops.contains(&Op::PushPopC) {
@@ -188,6 +212,8 @@ fn candidates(ops: &[Op]) -> Vec<usize> {
                 Op::PushC => c.push(2),
                 Op::SetD => c.push(3),
                 Op::PushPopC => c.push(2),
+                Op::WatcherE => c.push(5),
+                Op::Probe => {}
             }
         }
     }
@@ -197,7 +223,20 @@ fn candidates(ops: &[Op]) -> Vec<usize> {
 }
 
 fn judge(ops: &[Op], o: &Obs) -> Result<usize, (String, String)> {
-    let cands = candidates(ops);
+    // at no moment may the gate hide a record that the additional writer W (ceiling Warn, the
+    // same under every specification) would accept
+    if let Some(g) = o.probed {
+        if g < LevelFilter::Warn {
+            return Err((
+                "gate-below-writer-ceiling".into(),
+                format!("a thread that looked at log::max_level() while the change(s) were under way saw {g}: a warn record addressed to the additional writer W (ceiling Warn) would have been dropped by the log macros"),
+            ));
+        }
+    }
+    let mut cands = candidates(ops);
+    if ops.iter().all(|o| *o == Op::Probe) || cands.is_empty() {
+        cands.push(INITIAL);
+    }
     let hit = cands.iter().copied().find(|c| spec(*c).grid(&TARGETS) == o.grid);
     let Some(c) = hit else {
         return Err((
